@@ -15,6 +15,7 @@ func init() {
 }
 
 func c05(c *q.Ctx) {
+	blockCacheCoherent(c)
 	const st = "bcs/ledger/xledger/state::"
 	const led = "bcs/ledger/xledger/ledger::"
 	kinds := []q.MirrorKind{
